@@ -186,22 +186,18 @@ fn to_text_changes(changes: Vec<TextDocumentContentChangeEvent>, text: String) -
     let mut temp_text = text;
     changes
         .into_iter()
-        .filter_map(|change| {
-            if let TextDocumentContentChangeEvent {
-                range: Some(range),
-                text,
-                ..
-            } = change
-            {
-                let text_change = TextChange {
-                    range: as_index_range(&range, &temp_text),
-                    text,
-                };
-                temp_text.replace_range(text_change.range.clone(), &text_change.text);
-                Some(text_change)
-            } else {
-                None
-            }
+        .map(|change| {
+            let range = change.range.map_or_else(
+                // a change without range replaces the whole document
+                || 0..temp_text.len(),
+                |range| as_index_range(&range, &temp_text),
+            );
+            let text_change = TextChange {
+                range,
+                text: change.text,
+            };
+            temp_text.replace_range(text_change.range.clone(), &text_change.text);
+            text_change
         })
         .collect()
 }
